@@ -86,7 +86,114 @@ func (c *Ctx) linFn(fn *ssa.Function) *lin.Fn {
 			}
 		}
 	}
+	// preconditions of a private helper: bounds on its integer parameters proven at every call site
+	for _, ax := range c.paramPreconds(fn) {
+		lf.Axioms = append(lf.Axioms, ax)
+	}
 	return lf
+}
+
+type preCand struct {
+	param int
+	upper bool // param <= receiver's file length; else param >= 0
+}
+
+// paramPreconds: for an unexported library function all of whose callers are static calls in the library, the
+// candidate bounds (p >= 0, p <= File.len of the receiver's file) that hold at every call site, proven there with the
+// caller's own facts (assume/guarantee; recursion is cut by treating a function under analysis as having none).
+func (c *Ctx) paramPreconds(fn *ssa.Function) []lin.Cons {
+	if c.preCache == nil {
+		c.preCache = map[*ssa.Function][]preCand{}
+		c.preBusy = map[*ssa.Function]bool{}
+	}
+	mk := func(pcs []preCand) []lin.Cons {
+		var out []lin.Cons
+		for _, pc := range pcs {
+			p := fn.Params[pc.param]
+			if pc.upper {
+				out = append(out, lin.Ge(lin.Atom(c.lenAtom(fn.Params[0].Name())), lin.Atom(p.Name()), "proven at every call of "+fn.Name()+": "+p.Name()+" <= File.len"))
+			} else {
+				out = append(out, lin.Ge(lin.Atom(p.Name()), lin.Const(0), "proven at every call of "+fn.Name()+": "+p.Name()+" >= 0"))
+			}
+		}
+		return out
+	}
+	if pcs, ok := c.preCache[fn]; ok {
+		return mk(pcs)
+	}
+	if c.preBusy[fn] || c.linDepth > 2 {
+		return nil
+	}
+	if fn.Parent() != nil || fn.Synthetic != "" || token.IsExported(fn.Name()) || !c.P.InLib(fn) || len(fn.Blocks) == 0 {
+		c.preCache[fn] = nil
+		return nil
+	}
+	edges := c.P.Callers(fn)
+	if len(edges) == 0 {
+		c.preCache[fn] = nil
+		return nil
+	}
+	for _, e := range edges {
+		if e.Site == nil || e.Site.Common().StaticCallee() != fn || e.Caller.Func == nil || !c.P.InLib(e.Caller.Func) {
+			c.preCache[fn] = nil
+			return nil
+		}
+		if _, isCall := e.Site.(*ssa.Call); !isCall {
+			c.preCache[fn] = nil
+			return nil
+		}
+	}
+	isReader := fn.Signature.Recv() != nil && ssax.PtrNamedIs(fn.Signature.Recv().Type(), "text", "Reader") && c.model().ok
+	var cands []preCand
+	for i, p := range fn.Params {
+		if i == 0 && fn.Signature.Recv() != nil {
+			continue
+		}
+		if bt, ok := p.Type().Underlying().(*types.Basic); ok && bt.Info()&types.IsInteger != 0 && !ssax.NamedIs(p.Type(), "parsley", "Pos") {
+			cands = append(cands, preCand{i, false})
+			if isReader {
+				cands = append(cands, preCand{i, true})
+			}
+		}
+	}
+	if len(cands) == 0 {
+		c.preCache[fn] = nil
+		return nil
+	}
+	c.preBusy[fn] = true
+	c.linDepth++
+	var proven []preCand
+	for _, pc := range cands {
+		all := true
+		for _, e := range edges {
+			call := e.Site.(*ssa.Call)
+			cg := c.linFn(e.Caller.Func)
+			arg := cg.Norm(call.Call.Args[pc.param])
+			facts := cg.FactsAt(call.Block())
+			var goal lin.Cons
+			if pc.upper {
+				ln, ok := cg.Substitute(lin.Atom(c.lenAtom(fn.Params[0].Name())), fn, call.Call.Args)
+				if !ok {
+					all = false
+					break
+				}
+				goal = lin.Ge(ln, arg, "")
+			} else {
+				goal = lin.Ge(arg, lin.Const(0), "")
+			}
+			if !lin.Prove(facts, goal) {
+				all = false
+				break
+			}
+		}
+		if all {
+			proven = append(proven, pc)
+		}
+	}
+	c.linDepth--
+	delete(c.preBusy, fn)
+	c.preCache[fn] = proven
+	return mk(proven)
 }
 
 func (c *Ctx) offsetAtom(recv string) string {
